@@ -76,6 +76,11 @@ func c06ConfigPath(ctx *Ctx, idx int) {
 		for _, j := range r.Perm(len(curveIds))[:k] {
 			f.members = append(f.members, curveIds[j])
 		}
+		if r.Intn(3) == 0 {
+			// a member listed twice counts twice (sum [a, a] is 2a, difference [b, a, a] is b - 2a)
+			f.members = append(f.members, f.members[r.Intn(len(f.members))])
+			r.Shuffle(len(f.members), func(a, b int) { f.members[a], f.members[b] = f.members[b], f.members[a] })
+		}
 		fns = append(fns, f)
 		curveIds = append(curveIds, f.id)
 	}
